@@ -478,6 +478,26 @@ func (w *World) Hang(what string) {
 
 func (w *World) Hung() bool { w.rec.mu.Lock(); defer w.rec.mu.Unlock(); return w.hung }
 
+// closeStore closes a client's KVStore once its abandoned goroutines (released with an error when the world closed) have
+// run out: KVStore.Close waits on the store's WaitGroup, and a background task that spawns another one at that moment makes
+// the WaitGroup panic ("reused before previous Wait has returned").  A store that does not calm down is left to the GC.
+func closeStore(c *Client) {
+	defer func() { recover() }()
+	calm := 0
+	for i := 0; i < 20000 && calm < 20; i++ {
+		if n := tikv.VerifWGCount(c.store); n < 0 || n == c.baseWG {
+			calm++
+		} else {
+			calm = 0
+		}
+		time.Sleep(time.Millisecond)
+	}
+	if calm < 20 {
+		return
+	}
+	c.store.Close()
+}
+
 // Close tears the world down: nothing of it reaches the trace any more, parked/pending RPCs are released with an error and
 // the stores are closed in the background (abandoned goroutines of crashed clients run into errors and end).
 func (w *World) Close() {
@@ -491,14 +511,14 @@ func (w *World) Close() {
 	go func() {
 		done := make(chan struct{})
 		go func() {
+			defer close(done)
 			for _, c := range clients {
-				c.store.Close()
+				closeStore(c)
 			}
-			close(done)
 		}()
 		select {
 		case <-done:
-		case <-time.After(30 * time.Second):
+		case <-time.After(60 * time.Second):
 		}
 		w.mvcc.Close()
 	}()
